@@ -5,6 +5,7 @@ import IgVerif.Model.ModuleOrder
 import IgVerif.Gen.C19Proto
 import IgVerif.Model.Expr
 import IgVerif.Model.CondC
+import IgVerif.Model.Path
 /-! `igdriver <model>`: reads one op per line on stdin, prints one answer per line.
 Byte strings are hex ("-" = empty). -/
 open IgVerif
@@ -354,6 +355,30 @@ def condStep (_ : Unit) (toks : List String) : IO (Unit × String) := do
     return ((), s!"kept={kept} errors={out.1.errors} includes={incs}")
   | _ => return ((), "bad-op")
 
+def pathOfString (s : String) : Path.P :=
+  { global := s.startsWith "/", comps := (s.splitOn "/").filter (· != "") }
+
+def pathToString (p : Path.P) : String :=
+  (if p.global then "/" else "") ++ "/".intercalate p.comps
+
+def bytesToString (b : Bytes) : String := String.ofList (b.map fun n => Char.ofNat n)
+def stringToBytes (s : String) : Bytes := s.toList.map (·.toNat)
+
+def pathStep (_ : Unit) (toks : List String) : IO (Unit × String) := do
+  match toks with
+  | ["std", h] =>
+    let p := pathOfString (bytesToString (unhex h))
+    return ((), hex (stringToBytes (pathToString (Path.stdC p))))
+  | ["std2", h] =>
+    let p := pathOfString (bytesToString (unhex h))
+    return ((), hex (stringToBytes (pathToString (Path.stdC (Path.stdC p)))))
+  | ["abs", h, c] =>
+    -- make_absolute(start): a relative name is placed under `start`, then standardized
+    let s := bytesToString (unhex h)
+    let full := if s.startsWith "/" then s else bytesToString (unhex c) ++ "/" ++ s
+    return ((), hex (stringToBytes (pathToString (Path.stdC (pathOfString full)))))
+  | _ => return ((), "bad-op")
+
 def main (args : List String) : IO UInt32 := do
   let stdin ← IO.getStdin
   match args with
@@ -362,4 +387,5 @@ def main (args : List String) : IO UInt32 := do
   | ["proto"] => loop stdin protoStep (); return 0
   | ["expr"] => loop stdin exprStep (); return 0
   | ["cond"] => loop stdin condStep (); return 0
+  | ["path"] => loop stdin pathStep (); return 0
   | _ => IO.eprintln "usage: igdriver <model>"; return 2
